@@ -101,6 +101,43 @@ fn run_instance(inst: &Value) -> Value {
                             ResultS3::Err(e) => out.push(json!({"r":"err","e":e.to_string()})),
                         }
                     }
+                    "lineib" => {
+                        let fo = c[1].as_u64().unwrap_or(0);
+                        match lr.find_line_in_block(fo) {
+                            (ResultS3::Found((next, lp)), _) => {
+                                let bytes: Vec<u8> = lp.verif_bytes();
+                                out.push(json!({"r":"found","next":next,"beg":lp.fileoffset_begin(),
+                                                "end":lp.fileoffset_end(),"hex":hex(&bytes)}));
+                            }
+                            (ResultS3::Done, partial) => out.push(json!({"r":"done","partial":partial.is_some()})),
+                            (ResultS3::Err(e), _) => out.push(json!({"r":"err","e":e.to_string()})),
+                        }
+                    }
+                    "scanline" => {
+                        // the block-zero scan of the program: in-block calls from offset 0 along `next`
+                        let k = c[1].as_u64().unwrap_or(1);
+                        let mut fo = 0u64;
+                        let mut steps: Vec<Value> = Vec::new();
+                        for _ in 0..k {
+                            match lr.find_line_in_block(fo) {
+                                (ResultS3::Found((next, lp)), _) => {
+                                    let bytes: Vec<u8> = lp.verif_bytes();
+                                    steps.push(json!({"r":"found","next":next,"beg":lp.fileoffset_begin(),
+                                                      "end":lp.fileoffset_end(),"hex":hex(&bytes)}));
+                                    fo = next;
+                                }
+                                (ResultS3::Done, partial) => {
+                                    steps.push(json!({"r":"done","partial":partial.is_some()}));
+                                    break;
+                                }
+                                (ResultS3::Err(e), _) => {
+                                    steps.push(json!({"r":"err","e":e.to_string()}));
+                                    break;
+                                }
+                            }
+                        }
+                        out.push(json!({"r":"scan","steps":steps}));
+                    }
                     "lru" => {
                         if c[1].as_u64().unwrap_or(1) == 1 {
                             lr.LRU_cache_enable();
@@ -126,6 +163,38 @@ fn run_instance(inst: &Value) -> Value {
                     "sysline" => Some(sr.find_sysline(fo)),
                     "between" => Some(sr.find_sysline_between_datetime_filters(fo, &dtopt(&c[2], &tz), &dtopt(&c[3], &tz))),
                     "at" => Some(sr.find_sysline_at_datetime_filter(fo, &dtopt(&c[2], &tz))),
+                    "syslineib" => {
+                        let (r_, partial) = sr.find_sysline_in_block(fo);
+                        match r_ {
+                            ResultS3::Found((next, sl)) => out.push(sysline_json(next, &sl)),
+                            ResultS3::Done => out.push(json!({"r":"done","partial":partial})),
+                            ResultS3::Err(e) => out.push(json!({"r":"err","e":e.to_string()})),
+                        }
+                        None
+                    }
+                    "scansys" => {
+                        let mut at = 0u64;
+                        let mut steps: Vec<Value> = Vec::new();
+                        for _ in 0..fo {
+                            let (r_, partial) = sr.find_sysline_in_block(at);
+                            match r_ {
+                                ResultS3::Found((next, sl)) => {
+                                    steps.push(sysline_json(next, &sl));
+                                    at = next;
+                                }
+                                ResultS3::Done => {
+                                    steps.push(json!({"r":"done","partial":partial}));
+                                    break;
+                                }
+                                ResultS3::Err(e) => {
+                                    steps.push(json!({"r":"err","e":e.to_string()}));
+                                    break;
+                                }
+                            }
+                        }
+                        out.push(json!({"r":"scan","steps":steps}));
+                        None
+                    }
                     "drop" => {
                         let ok = sr.drop_data(fo);
                         out.push(json!({"r":"ok","dropped":ok}));
